@@ -233,7 +233,7 @@ def run(ctx: core.Ctx) -> int:
                       "label": json.dumps(["subprocess", [[d["key"], d["type"]] for d in g["devs"]]])})
     for i, c in enumerate(cases):
         c["tid"] = i + 1
-    evl = core.pmap(run_case, cases, chunksize=4, daemon=False)
+    evl = ctx.pmap(run_case, cases, chunksize=4, daemon=False)
     events = [e for es in evl for e in es]
     for ev in events[:: max(1, len(events) // 5)][:5]:
         ctx.samples.append({k: ev[k] for k in ("label", "cmd", "class", "exit", "crashed", "namesFile", "tail")})
@@ -255,4 +255,4 @@ def run(ctx: core.Ctx) -> int:
 
 
 def replay(ctx: core.Ctx, path: str) -> int:
-    raise core.MachineryError("replay for C16 re-runs the case list; use the check with the same VERIF_SEED")
+    return core.generic_replay(ctx, path)
